@@ -189,6 +189,7 @@ pub fn run(run: &mut Run) {
     run.cov("exhaustive", serde_json::json!(ex && res2.exhausted_bound));
     run.cov("depth_bound", serde_json::json!(cfg.max_depth));
     end_to_end(run, quick);
+    ack_races_fan_out(run, quick);
     run.assume("each (operation, member) pair is registered at most once, as the fan-out loop does; acknowledgements may come at any time, repeatedly, from any name");
     run.assume("end to end: the same accounting is read in every state of cluster explorations (scripts of C04) - acks never exceed copies, and the pending table is empty once the cluster is silent");
 }
@@ -275,4 +276,219 @@ fn end_to_end(run: &mut Run, quick: bool) {
     }
     run.cov("cluster_states_observed", serde_json::json!(states));
     run.cov("cluster_scripts_capped", serde_json::json!(capped));
+}
+
+// ---------------------------------------------------------------------------------------------
+// the acknowledgement of one secondary racing the fan-out of the same operation to the next one
+
+struct SendFut(std::pin::Pin<Box<dyn std::future::Future<Output = ()>>>);
+// the future is built on the driver thread and then polled by exactly one managed thread
+unsafe impl Send for SendFut {}
+
+fn poll_fut(f: &mut SendFut) -> bool {
+    let waker = futures::task::noop_waker();
+    let mut cx = std::task::Context::from_waker(&waker);
+    matches!(f.0.as_mut().poll(&mut cx), std::task::Poll::Pending)
+}
+
+struct RaceWorld {
+    node: crate::world::Node,
+    rx: Vec<futures::channel::mpsc::Receiver<String>>,
+}
+
+/// a primary with `members` secondaries (their link channels are the harness's), the real
+/// replication loop polled by hand, database t with one key; returns the world, the loop, its feed
+/// and the queued message of one more client write that has not been through the loop yet
+fn race_world(members: usize) -> (RaceWorld, SendFut, futures::channel::mpsc::Sender<String>, String) {
+    use crate::world::*;
+    use futures::channel::mpsc::channel;
+    let mut node = Node::new_single("c15race");
+    let mut rx = vec![];
+    for i in 0..members {
+        let (tx, r) = channel::<String>(1000);
+        node.dbs.add_cluster_member(nundb::bo::ClusterMember { name: format!("m{}:1", i + 1), role: nundb::bo::ClusterRole::Secoundary, sender: Some(tx) });
+        rx.push(r);
+    }
+    let mut admin = Session::new();
+    admin.exec(&node, &format!("auth {} {}", USER, PWD));
+    admin.exec(&node, "create-db t tok none");
+    admin.exec(&node, "use-db t tok");
+    admin.exec(&node, "set k v0");
+    let (mut feed, loop_rx) = channel::<String>(1000);
+    let mut fut = SendFut(Box::pin(nundb::replication_ops::start_replication_thread(loop_rx, node.dbs.clone())));
+    poll_fut(&mut fut);
+    let (queued, _) = node.drain_queues();
+    for m in queued {
+        let _ = feed.try_send(m);
+        poll_fut(&mut fut);
+    }
+    // everything so far is acknowledged by everybody
+    let mut link = Session::new();
+    link.exec(&node, &format!("auth {} {}", USER, PWD));
+    for (i, r) in rx.iter_mut().enumerate() {
+        while let Ok(Some(m)) = r.try_next() {
+            if let Some(id) = m.strip_prefix("rp ").and_then(|x| x.split(' ').next()) {
+                link.exec(&node, &format!("ack {} m{}:1", id, i + 1));
+            }
+        }
+    }
+    admin.exec(&node, "set k v1");
+    let (queued, _) = node.drain_queues();
+    let msg = queued.last().cloned().unwrap_or_default();
+    (RaceWorld { node, rx }, fut, feed, msg)
+}
+
+fn ack_races_fan_out(run: &mut Run, quick: bool) {
+    use crate::ilv::*;
+    use crate::report::Violation;
+    use crate::world::*;
+    // the operation id the loop will draw is fixed by the logical clock: learn it in a dry run
+    let learn = |members: usize| -> Option<String> {
+        let (mut w, mut fut, mut feed, msg) = race_world(members);
+        w.node.ctx.install();
+        let _ = feed.try_send(msg);
+        poll_fut(&mut fut);
+        let id = w.rx[0].try_next().ok().flatten().and_then(|m| m.strip_prefix("rp ").and_then(|x| x.split(' ').next()).map(|s| s.to_string()));
+        w.node.remove_dir();
+        id
+    };
+    let mut configs: Vec<(usize, Vec<usize>)> = vec![(2, vec![0]), (2, vec![1]), (2, vec![0, 1])];
+    if !quick {
+        configs.push((3, vec![0]));
+        configs.push((3, vec![1]));
+        configs.push((3, vec![0, 2]));
+    }
+    let mut total_exec = 0u64;
+    let mut total_points = 0u64;
+    let mut capped = 0;
+    let mut outcomes: std::collections::BTreeSet<String> = Default::default();
+    for (members, ackers) in configs.iter() {
+        let id = match learn(*members) {
+            Some(i) => i,
+            None => {
+                eprintln!("machinery: C15 race stage: the dry run sent nothing to the first member");
+                std::process::exit(2);
+            }
+        };
+        let shape = format!("{} secondaries, the fan-out of one write racing the acknowledgement(s) of {:?}", members, ackers.iter().map(|a| format!("m{}", a + 1)).collect::<Vec<_>>());
+        let mut found: Vec<Violation> = vec![];
+        let mut mk = || {
+            let (w, fut, feed, msg) = race_world(*members);
+            let ctx = w.node.ctx.clone();
+            let mut bodies: Vec<Box<dyn FnOnce(&std::sync::Arc<Sched>) -> String + Send>> = vec![];
+            let mut fut = fut;
+            let mut feed = feed;
+            bodies.push(Box::new(move |_s| {
+                let _ = feed.try_send(msg);
+                let alive = poll_fut(&mut fut);
+                // the loop and its feed stay alive until the execution is judged
+                std::mem::forget(feed);
+                std::mem::forget(fut);
+                format!("loop-{}", if alive { "waiting" } else { "ended" })
+            }));
+            for a in ackers.iter() {
+                let dbs = w.node.dbs.clone();
+                let line = format!("ack {} m{}:1", id, a + 1);
+                bodies.push(Box::new(move |_s| {
+                    let (mut c, _r) = nundb::bo::Client::new_empty_and_receiver();
+                    c.auth.store(true, std::sync::atomic::Ordering::SeqCst);
+                    resp_str(&nundb::process_request::process_request(&line, &dbs, &mut c))
+                }));
+            }
+            (w, ctx, bodies)
+        };
+        let mut check = |mut w: RaceWorld, x: &Execution<String>, choices: &[usize]| {
+            let schedule: Vec<String> = x.points.iter().map(|p| p.what.clone()).collect();
+            let mut push = |clause: &str, detail: String| {
+                if !found.iter().any(|f| f.clause == clause) {
+                    found.push(Violation { clause: clause.to_string(), shape: shape.clone(), detail, replay: serde_json::json!({"engine":"ilv","property":"C15","members":members,"ackers":ackers,"choices":choices,"schedule":schedule}) });
+                }
+            };
+            if let Some(d) = &x.deadlock {
+                push("deadlock", d.clone());
+                return;
+            }
+            if x.results.iter().any(|r| r.is_none()) {
+                push("handler-panic", format!("a thread panicked: {:?}", crate::world::PANIC_LOG.lock().unwrap().last()));
+                w.node.remove_dir();
+                return;
+            }
+            w.node.ctx.install();
+            // what really went out, and to whom
+            let mut sent: Vec<Option<String>> = vec![];
+            for r in w.rx.iter_mut() {
+                let mut got = None;
+                while let Ok(Some(m)) = r.try_next() {
+                    if let Some(i) = m.strip_prefix("rp ").and_then(|x| x.split(' ').next()) {
+                        got = Some(i.to_string());
+                    }
+                }
+                sent.push(got);
+            }
+            let real_id: Option<u64> = sent.iter().flatten().next().and_then(|s| s.parse().ok());
+            let real_id = match real_id {
+                Some(i) => i,
+                None => {
+                    push("copy-not-sent", format!("the write was sent to nobody; schedule {:?}", schedule));
+                    w.node.remove_dir();
+                    return;
+                }
+            };
+            // members that were sent the copy and whose acknowledgement was not issued at all
+            let silent: Vec<usize> = (0..*members).filter(|m| sent[*m].is_some() && !(ackers.contains(m) && real_id.to_string() == id)).collect();
+            let pend = w.node.dbs.get_pending_opp_copy(real_id);
+            let table = w.node.dbs.pending_opps.read().unwrap().len();
+            outcomes.insert(format!("{} members, ackers {:?}: pending {} acks {:?}", members, ackers, pend.is_some(), pend.as_ref().map(|p| p.count_acknowledged())));
+            if !silent.is_empty() {
+                match &pend {
+                    None => push(
+                        "operation-not-pending-while-a-copy-is-unacknowledged",
+                        format!("op {} was sent to {:?}, members {:?} never acknowledged it, yet it is no longer pending (table size {}); schedule {:?}", real_id, sent, silent.iter().map(|m| format!("m{}", m + 1)).collect::<Vec<_>>(), table, schedule),
+                    ),
+                    Some(p) => {
+                        if p.is_full_acknowledged() {
+                            push("operation-fully-acknowledged-too-early", format!("op {} counts as fully acknowledged although {:?} never acknowledged; schedule {:?}", real_id, silent, schedule));
+                        }
+                        if p.count_acknowledged() > p.count_replication() {
+                            push("acks-exceed-copies", format!("op {}: {} acks, {} copies", real_id, p.count_acknowledged(), p.count_replication()));
+                        }
+                    }
+                }
+            }
+            // afterwards every member acknowledges (again): nothing may stay pending
+            let mut link = Session::new();
+            link.exec(&w.node, &format!("auth {} {}", USER, PWD));
+            for m in 0..*members {
+                link.exec(&w.node, &format!("ack {} m{}:1", real_id, m + 1));
+            }
+            let left = w.node.dbs.pending_opps.read().unwrap().len();
+            if left != 0 {
+                push("pending-after-all-acks", format!("every member acknowledged op {} but {} operation(s) are still pending; schedule {:?}", real_id, left, schedule));
+            }
+            w.node.remove_dir();
+        };
+        match explore(if quick { 2 } else { 3 }, 200_000, std::time::Duration::from_secs(if quick { 15 } else { 300 }), &mut mk, &mut check) {
+            Ok(st) => {
+                total_exec += st.executions;
+                total_points += st.points;
+                capped += st.capped.is_some() as u64;
+            }
+            Err(RunError::Hang(m)) => {
+                eprintln!("machinery: ILV C15 {}: {}", shape, m);
+                std::process::exit(2);
+            }
+        }
+        for v in found {
+            run.violate(v);
+        }
+    }
+    run.cov("ack_vs_fan_out_configs", serde_json::json!(configs.len()));
+    run.cov("ack_vs_fan_out_executions", serde_json::json!(total_exec));
+    run.cov("ack_vs_fan_out_scheduling_points", serde_json::json!(total_points));
+    run.cov("ack_vs_fan_out_configs_capped", serde_json::json!(capped));
+    run.cov("ack_vs_fan_out_distinct_outcomes", serde_json::json!(outcomes.into_iter().collect::<Vec<_>>()));
+    run.cov_add("states", total_exec);
+    run.cov_add("transitions", total_points);
+    run.cov_add("traces_validated_against_impl", total_exec);
+    run.assume("ack / fan-out race: the real replication loop (one poll with one queued write) and the real `ack` command run as threads under the controlled scheduler; scheduling points are the acquisitions of the pending-operation table's lock and of the database map locks");
 }
